@@ -487,7 +487,7 @@ def main(tier, seed):
     t0 = time.time()
     tasks = gen_tasks(tier, seed)
     for t in tasks:
-        t["timeout"] = 50 if tier == "quick" else 600
+        t["timeout"] = 90 if tier == "quick" else 600
     acc = core.run_tasks(run_task, tasks, deadline_s=175 if tier == "quick" else 2000)
     acc["evaluations"] = max(acc["evaluations"], len(tasks))
     bounds = {"k": "-1..2", "coverage": "{-1..5}/4", "weight_codes": "-2..3", "structural_variants": 13}
